@@ -1,6 +1,13 @@
 //! C14 — accept/decline decision of the three OTLP event encoders: metrics accepts exactly the
 //! metric samples (metric kind with a numeric or numeric-sequence value), traces exactly the
 //! spans (span kind with a range extent), logs everything.
+//!
+//! The kind is given either as text (`"span"`, `"metric"`, other text, absent) or as a captured
+//! `emit::Kind` (what `emit::Span`/`emit::Metric` and the macros produce; recovered by downcast).
+//! The two representations live in separate harnesses: a `Value` whose internal variant is not
+//! fixed makes CBMC explore the generic "format and re-parse" path of `Value::parse`
+//! (`fmt::write` through function pointers: > 15 min). In the captured-`Kind` harnesses that
+//! function is replaced by a stub that fails when reached.
 use crate::util::*;
 use emit::{Event, Kind, Path, Template, Value};
 use emit_otlp::verif;
@@ -8,16 +15,25 @@ use emit_otlp::verif;
 static K_SPAN: Kind = Kind::Span;
 static K_METRIC: Kind = Kind::Metric;
 
-/// kind selector: 0 absent, 1 "span", 2 "metric", 3 Kind::Span, 4 Kind::Metric, 5 other text
-fn kind_value(k: u8) -> Option<Value<'static>> {
-    match k {
+/// kind selector (a const of each harness: see the module comment):
+/// 0 absent, 1 "span", 2 "metric", 3 other text, 4 Kind::Span, 5 Kind::Metric
+fn kind_value<const K: u8>() -> Option<Value<'static>> {
+    match K {
         0 => None,
         1 => Some(Value::from("span")),
         2 => Some(Value::from("metric")),
-        3 => Some(Value::from_any(&K_SPAN)),
-        4 => Some(Value::from_any(&K_METRIC)),
-        _ => Some(Value::from("log")),
+        3 => Some(Value::from("log")),
+        4 => Some(Value::from_any(&K_SPAN)),
+        _ => Some(Value::from_any(&K_METRIC)),
     }
+}
+
+fn is_span(k: u8) -> bool {
+    k == 1 || k == 4
+}
+
+fn is_metric(k: u8) -> bool {
+    k == 2 || k == 5
 }
 
 fn agg_value(a: u8) -> Option<Value<'static>> {
@@ -29,11 +45,19 @@ fn agg_value(a: u8) -> Option<Value<'static>> {
     }
 }
 
-struct Nums {
+pub struct Nums {
     i: i64,
     f: f64,
     si: [i64; 2],
     sf: [f64; 2],
+}
+
+fn sym_nums() -> Nums {
+    let n = Nums { i: kani::any(), f: kani::any(), si: kani::any(), sf: kani::any() };
+    // Summing +inf and -inf yields NaN; Kani's "NaN on addition" check flags that although it is
+    // not a Rust panic (NaN data points are outside the routing property): excluded.
+    kani::assume(!(n.sf[0].is_infinite() && n.sf[1].is_infinite()));
+    n
 }
 
 /// value selector: 0 missing, 1 i64, 2 f64, 3 [i64; 2], 4 [f64; 2], 5 text, 6 bool
@@ -53,63 +77,134 @@ fn is_numeric(v: u8) -> bool {
     v >= 1 && v <= 4
 }
 
-#[kani::proof]
-#[kani::unwind(16)]
-pub fn c14_q_metrics_accepts_iff_metric_sample() {
-    let (k, v, a, x): (u8, u8, u8, u8) = (kani::any(), kani::any(), kani::any(), kani::any());
-    kani::assume(k <= 5 && v <= 6 && a <= 3 && x <= 2);
-    let n = Nums { i: kani::any(), f: kani::any(), si: kani::any(), sf: kani::any() };
-    let props = Slots { s: [("evt_kind", kind_value(k)), ("metric_value", metric_value(v, &n)), ("metric_agg", agg_value(a))] };
+// ---- metrics ------------------------------------------------------------------------------
+
+/// `K` fixes the kind, `V` the value selector (255: symbolic over all seven — only affordable
+/// where the encoder declines on the kind alone and never looks at the value).
+fn metrics_case<const K: u8, const V: u8, const TWIN: bool>() {
+    let v: u8 = if V == 255 { kani::any() } else { V };
+    let (a, x): (u8, u8) = (kani::any(), kani::any());
+    kani::assume(v <= 6 && a <= 3 && x <= 2);
+    let n = sym_nums();
+    let props = Slots { s: [("evt_kind", kind_value::<K>()), ("metric_value", metric_value(v, &n)), ("metric_agg", agg_value(a))] };
     let evt = Event::new(Path::new_raw("m"), Template::literal("t"), extent_of(x), &props);
     let got = verif::metrics_accepts(&evt);
-    let want = (k == 2 || k == 4) && is_numeric(v);
-    assert!(got == want, "metrics accepts iff kind = metric and the value is numeric or a numeric sequence");
-    kani::cover!(got && v == 1 && a == 0, "accepted: integer gauge");
-    kani::cover!(got && v == 2 && a == 1, "accepted: float count");
-    kani::cover!(got && v == 3 && a == 2 && x == 2, "accepted: integer sequence sum over a range");
-    kani::cover!(got && v == 4 && a == 3 && k == 4, "accepted: float sequence, unknown aggregation, captured Kind");
-    kani::cover!(!got && (k == 2) && v == 5, "declined: metric kind with a text value");
-    kani::cover!(!got && (k == 2) && v == 0, "declined: metric kind without a value");
-    kani::cover!(!got && (k == 1 || k == 3) && v == 1, "declined: span kind with a numeric value");
-    kani::cover!(!got && k == 0 && v == 1, "declined: no kind");
+    let want = is_metric(K) && is_numeric(v);
+    if TWIN {
+        // mutant: "every metric-kinded event is accepted, whatever its value"
+        assert!(got == is_metric(K), "MUTANT: metrics accepts iff kind = metric");
+    } else {
+        assert!(got == want, "metrics accepts iff kind = metric and the value is numeric or a numeric sequence");
+    }
+    kani::cover!(got == want && a == 0 && x == 0, "no aggregation (gauge), no extent");
+    kani::cover!(got == want && a == 1 && x == 2, "count over a range");
+    kani::cover!(got == want && a == 2 && x == 1, "sum at a point");
+    kani::cover!(got == want && a == 3, "unknown aggregation");
+    kani::cover!(got, "opt: accepted");
+    kani::cover!(!got, "opt: declined");
     core::mem::forget(evt);
     core::mem::forget(props);
 }
 
-#[kani::proof]
-#[kani::unwind(16)]
-pub fn c14_q_traces_accepts_iff_span_with_range() {
-    let (k, x): (u8, u8) = (kani::any(), kani::any());
-    kani::assume(k <= 5 && x <= 2);
-    let props = Slots { s: [("evt_kind", kind_value(k))] };
+// ---- traces -------------------------------------------------------------------------------
+
+fn traces_case<const K: u8, const TWIN: bool>() {
+    let x: u8 = kani::any();
+    kani::assume(x <= 2);
+    let props = Slots { s: [("evt_kind", kind_value::<K>())] };
     let evt = Event::new(Path::new_raw("m"), Template::literal("t"), extent_of(x), &props);
     let got = verif::traces_accepts(&evt);
-    let want = (k == 1 || k == 3) && x == 2;
-    assert!(got == want, "traces accepts iff kind = span and the extent is a range");
-    kani::cover!(got && k == 1, "accepted: text kind");
-    kani::cover!(got && k == 3, "accepted: captured Kind");
-    kani::cover!(!got && k == 1 && x == 1, "declined: span with a point extent");
-    kani::cover!(!got && k == 1 && x == 0, "declined: span without extent");
-    kani::cover!(!got && (k == 2 || k == 4) && x == 2, "declined: metric kind");
-    kani::cover!(!got && k == 0 && x == 2, "declined: no kind");
-    kani::cover!(!got && k == 5 && x == 2, "declined: unknown kind");
+    let want = is_span(K) && x == 2;
+    if TWIN {
+        // mutant: "every span-kinded event is accepted, whatever its extent"
+        assert!(got == is_span(K), "MUTANT: traces accepts iff kind = span");
+    } else {
+        assert!(got == want, "traces accepts iff kind = span and the extent is a range");
+    }
+    kani::cover!(got == want && x == 0, "no extent");
+    kani::cover!(got == want && x == 1, "point extent");
+    kani::cover!(got == want && x == 2, "range extent");
+    kani::cover!(got, "opt: accepted");
     core::mem::forget(evt);
     core::mem::forget(props);
 }
 
-#[kani::proof]
-#[kani::unwind(16)]
-pub fn c14_q_logs_accepts_everything() {
-    let (k, v, x): (u8, u8, u8) = (kani::any(), kani::any(), kani::any());
-    kani::assume(k <= 5 && v <= 6 && x <= 2);
-    let n = Nums { i: kani::any(), f: kani::any(), si: kani::any(), sf: kani::any() };
-    let props = Slots { s: [("evt_kind", kind_value(k)), ("metric_value", metric_value(v, &n))] };
+// ---- logs ---------------------------------------------------------------------------------
+
+fn logs_case<const K: u8, const TWIN: bool>() {
+    let (v, x): (u8, u8) = (kani::any(), kani::any());
+    kani::assume(v <= 6 && x <= 2);
+    let n = sym_nums();
+    let props = Slots { s: [("evt_kind", kind_value::<K>()), ("metric_value", metric_value(v, &n))] };
     let evt = Event::new(Path::new_raw("m"), Template::literal("t"), extent_of(x), &props);
     let got = verif::logs_accepts(&evt);
-    assert!(got, "logs accepts every event");
-    kani::cover!(k == 2 && v == 1, "metric sample");
-    kani::cover!(k == 1 && x == 2, "span");
-    kani::cover!(k == 0 && x == 0, "plain event");
+    if TWIN {
+        assert!(!got, "MUTANT: logs declines");
+    } else {
+        assert!(got, "logs accepts every event");
+    }
+    kani::cover!(v == 1 && x == 1, "numeric value, point extent");
+    kani::cover!(v == 5 && x == 2, "text value, range extent");
+    kani::cover!(x == 0 && v == 0, "no extent, no value");
     core::mem::forget(evt);
     core::mem::forget(props);
 }
+
+// ---- harnesses ----------------------------------------------------------------------------
+//
+// One Kani run costs ~100 s before CBMC even starts solving (the reachable part of emit_otlp +
+// sval is large), so a harness bundles several *instantiations*: a symbolic selector picks the
+// arm, and inside an arm kind and value shape are constants (see the module comment).
+
+macro_rules! harness {
+    ($name:ident, [$($call:expr),+ $(,)?]) => {
+        #[kani::proof]
+        #[kani::unwind(16)]
+        pub fn $name() {
+            let sel: u8 = kani::any();
+            let mut n: u8 = 0;
+            $( if sel == n { $call; return; } n += 1; )+
+            kani::assume(false);
+        }
+    };
+    // captured `emit::Kind`: must be recovered by downcast; `Value::parse` fails the harness when reached
+    (captured $name:ident, [$($call:expr),+ $(,)?]) => {
+        #[kani::proof]
+        #[kani::unwind(16)]
+        #[kani::stub(emit::Value::parse, crate::util::parse_not_reached)]
+        pub fn $name() {
+            let sel: u8 = kani::any();
+            let mut n: u8 = 0;
+            $( if sel == n { $call; return; } n += 1; )+
+            kani::assume(false);
+        }
+    };
+}
+
+// traces: extent symbolic in every arm
+harness!(c14_q_traces_text_kinds, [traces_case::<0, false>(), traces_case::<1, false>(), traces_case::<2, false>(), traces_case::<3, false>()]);
+harness!(captured c14_q_traces_captured_kinds, [traces_case::<4, false>(), traces_case::<5, false>()]);
+harness!(c14_w_traces_span_text, [traces_case::<1, true>()]);
+
+// metrics, metric kind as text: aggregation and extent symbolic in every arm
+harness!(c14_q_metrics_text_missing_i64_text, [metrics_case::<2, 0, false>(), metrics_case::<2, 1, false>(), metrics_case::<2, 5, false>()]);
+harness!(c14_q_metrics_text_sequences, [metrics_case::<2, 3, false>(), metrics_case::<2, 4, false>()]);
+harness!(c14_t_metrics_text_f64_bool, [metrics_case::<2, 2, false>(), metrics_case::<2, 6, false>()]);
+// metrics, metric kind as captured `emit::Kind`
+harness!(captured c14_q_metrics_captured_f64_seq_i64, [metrics_case::<5, 2, false>(), metrics_case::<5, 3, false>()]);
+harness!(captured c14_t_metrics_captured_missing_i64_text, [metrics_case::<5, 0, false>(), metrics_case::<5, 1, false>(), metrics_case::<5, 5, false>()]);
+harness!(captured c14_t_metrics_captured_seq_f64_bool, [metrics_case::<5, 4, false>(), metrics_case::<5, 6, false>()]);
+// metrics, other kinds (declined whatever the value)
+harness!(c14_q_metrics_other_kinds_i64, [metrics_case::<0, 1, false>(), metrics_case::<1, 1, false>(), metrics_case::<3, 1, false>()]);
+harness!(captured c14_q_metrics_span_captured_i64, [metrics_case::<4, 1, false>()]);
+harness!(c14_t_metrics_other_kinds_seq_text_missing, [
+    metrics_case::<0, 3, false>(), metrics_case::<1, 3, false>(), metrics_case::<3, 3, false>(),
+    metrics_case::<0, 5, false>(), metrics_case::<1, 0, false>(), metrics_case::<3, 2, false>(),
+]);
+harness!(c14_w_metrics_text_textvalue, [metrics_case::<2, 5, true>()]);
+
+// logs: the encoder never looks at kind or value (both may stay symbolic in shape here)
+harness!(c14_q_logs_kind_metric_text, [logs_case::<2, false>()]);
+harness!(captured c14_q_logs_kind_span_captured, [logs_case::<4, false>()]);
+harness!(c14_t_logs_kind_absent, [logs_case::<0, false>()]);
+harness!(c14_w_logs_kind_metric_text, [logs_case::<2, true>()]);
